@@ -239,8 +239,9 @@ Fixpoint tokens_of_pieces (o : N) (docs : list doc) (ps : list piece) : list rto
       {| tk := k; tsp := {| off := o; slen := byte_len t |}; ttext := t; tdocs := docs |}
       :: tokens_of_pieces (o + byte_len t) [] r
   | PcDoc l :: r =>
-      let text := doc_prefix ++ l in
-      tokens_of_pieces (o + byte_len text) (docs ++ [(doc_of_line l, {| off := o; slen := byte_len text |})]) r
+      let text := doc_prefix ++ l in     (* the comment token; the line feed after it is not part of it *)
+      tokens_of_pieces (o + byte_len text + 1)
+                       (docs ++ [(doc_of_line l, {| off := o; slen := byte_len text |})]) r
   | PcWs s :: r => tokens_of_pieces (o + byte_len s) docs r
   end.
 
